@@ -421,8 +421,9 @@ def pipeline(mod, pid, tier, seed, args, work, t0):
         "wall_s": round(time.time() - t0, 2),
         "violations": 1 if exit_code else 0,
     }
-    os.makedirs(os.path.join(VERIF, "evidence"), exist_ok=True)
-    with open(os.path.join(VERIF, "evidence", pid + ".json"), "w") as f:
+    evdir = os.environ.get("VERIF_EVIDENCE_DIR", os.path.join(VERIF, "evidence"))
+    os.makedirs(evdir, exist_ok=True)
+    with open(os.path.join(evdir, pid + ".json"), "w") as f:
         json.dump(ev, f, indent=1, default=str)
     log("%s tier=%s obligations=%d/%d cases=%d model=%d mismatches=%d oracle_fail=%d known=%s wall=%.1fs"
         % (pid, tier, len(discharged), len(theorems), len(cases), len(terms) if model_ran else 0,
